@@ -15,6 +15,7 @@ import (
 	"math/big"
 	"os"
 	"path/filepath"
+	"regexp"
 	"sort"
 	"strings"
 
@@ -66,6 +67,7 @@ type Assert struct {
 	J    int    `json:"j"`
 	Copy int    `json:"copy"` // index of the MCopy op this expectation depends on, -1 if none
 	Why  string `json:"why"`
+	Only string `json:"only,omitempty"` // "d1": only finding D1 (delegation list of a copy) may explain a failure
 }
 
 type History struct {
@@ -544,6 +546,7 @@ func (e *env) exec(i int, o Op) Obs {
 			st.Suicide(addrOf(o.A))
 		case "create":
 			st.CreateAccount(addrOf(o.A))
+			st.SetNonce(addrOf(o.A), 1)
 			st.AddBalance(addrOf(o.A), bigOf(o.V))
 		case "upddelegator":
 			amt := bigOf(o.V)
@@ -754,6 +757,8 @@ func universeCoq() string {
 
 // ---- running a history and evaluating the property on it ------------------------------
 
+var dlgsPath = regexp.MustCompile(`^\.0\.\d+\.5`)
+
 const (
 	keyD1 = "a copy loses the uncommitted delegation list of an account (stateObject.deepCopy drops delegations and dirtyDlgs)"
 	keyD2 = "a copy taken between Finalise and IntermediateRoot is not marked dirty: committing the copy does not store code and storage (StateDB.Copy)"
@@ -853,8 +858,10 @@ func runHistory(h *History) *runResult {
 			add(generic, detail)
 		}
 	}
+	lineageAt := make([]copyInfo, len(h.Ops))
 	for i := range h.Ops {
 		o := &h.Ops[i]
+		lineageAt[i] = lineage(o.H)
 		outs := execOp(e, i, o)
 		res.outs = append(res.outs, outs)
 		switch o.K {
@@ -897,7 +904,17 @@ func runHistory(h *History) *runResult {
 				x, y = content(x), content(y)
 			}
 			if d := diffObs(x, y); d != "" {
-				attribute(ci, a.Why, fmt.Sprintf("outputs %d and %d differ at %s", a.I, a.J, d))
+				detail := fmt.Sprintf("outputs %d and %d differ at %s", a.I, a.J, d)
+				if a.Only == "d1" {
+					// the other side's commit may store the list a defective copy lacks
+					if ci.DirtyDlgs && dlgsPath.MatchString(d) {
+						add(keyD1, detail)
+					} else {
+						add(a.Why, detail)
+					}
+				} else {
+					attribute(ci, a.Why, detail)
+				}
 			}
 		case "eqreader":
 			// x = reader view, y = full view
@@ -920,6 +937,10 @@ func runHistory(h *History) *runResult {
 		if (a.K == "iroot" || a.K == "commit") && b.K == "view" && a.H == b.H && len(res.outs[i]) == 1 && len(res.outs[i+1]) == 1 {
 			v := get(i + 1)
 			if len(v.L) != 3 || isPanic(get(i)) {
+				continue
+			}
+			// a state descending from a copy the findings apply to does not show all it holds
+			if li := lineageAt[i]; li.DirtyDlgs || li.PendingDirty {
 				continue
 			}
 			key := content(v).String()
@@ -971,7 +992,7 @@ func (g *genr) do(o Op) int {
 	return i
 }
 func (g *genr) expect(kind string, i, j, cp int, why string) {
-	g.h.Asserts = append(g.h.Asserts, Assert{kind, i, j, cp, why})
+	g.h.Asserts = append(g.h.Asserts, Assert{Kind: kind, I: i, J: j, Copy: cp, Why: why})
 }
 func (g *genr) fresh() uint64 { x := g.nextH; g.nextH++; return x }
 
@@ -1100,8 +1121,20 @@ func (g *genr) write(hd uint64) {
 	case k < 53:
 		g.do(Op{K: "upddelegator", H: hd, A: a, B: g.vid(), Neg: false, V: fmt.Sprintf("%d", g.r.Intn(50)), Del: g.r.Chance(35)})
 	case k < 61:
-		g.do(Op{K: "delegate", H: hd, A: uint64(1 + g.r.Intn(3)), B: g.vid(), Neg: g.r.Chance(35),
-			V: new(big.Int).Mul(unit, big.NewInt(int64(1+g.r.Intn(2)))).String()})
+		d, id := uint64(1+g.r.Intn(3)), g.vid()
+		amt := new(big.Int).Mul(unit, big.NewInt(int64(1+g.r.Intn(2))))
+		neg := g.r.Chance(40)
+		if neg { // only withdraw what is there: integers in the state stay non-negative
+			ok := false
+			if val := st.GetValidatorByMainAddr(valAddr(id)); val != nil {
+				if df := val.GetDelegationFrom(addrOf(d)); df != nil && df.Token.Cmp(amt) >= 0 && val.Token.Cmp(amt) >= 0 &&
+					val.Stake.Cmp(df.Stake) >= 0 && st.VerifC10DelegationBalance(addrOf(d)).Cmp(amt) >= 0 {
+					ok = true
+				}
+			}
+			neg = ok
+		}
+		g.do(Op{K: "delegate", H: hd, A: d, B: id, Neg: neg, V: amt.String()})
 	case k < 69:
 		id := g.vid()
 		g.do(Op{K: "createval", H: hd, Val: g.newValRec(id)})
@@ -1382,10 +1415,22 @@ func (g *genr) tCopy() {
 		g.do(o)
 	}
 	de := g.del()
-	r0 := g.do(Op{K: "commit", H: 0, Del: de})
-	v0 := g.do(Op{K: "view", H: 0})
-	r1 := g.do(Op{K: "commit", H: c, Del: de})
-	v1 := g.do(Op{K: "view", H: c})
+	var r0, v0, r1, v1 int
+	if g.r.Bool() {
+		r0 = g.do(Op{K: "commit", H: 0, Del: de})
+		v0 = g.do(Op{K: "view", H: 0})
+		r1 = g.do(Op{K: "commit", H: c, Del: de})
+		v1 = g.do(Op{K: "view", H: c})
+	} else { // the copy first: what it needs must not come from the original's commit
+		r1 = g.do(Op{K: "commit", H: c, Del: de})
+		v1 = g.do(Op{K: "view", H: c})
+		h2 := g.fresh()
+		g.do(Op{K: "reopen", H: c, H2: h2})
+		j := g.do(Op{K: "view", H: h2})
+		g.expect("eqcontent", v1, j, ci, "the state reopened from the committed roots differs from the live state")
+		r0 = g.do(Op{K: "commit", H: 0, Del: de})
+		v0 = g.do(Op{K: "view", H: 0})
+	}
 	g.expect("eqroots", r0, r1, ci, "a copy and its original, after the same calls, commit to different roots")
 	g.expect("eqview", v0, v1, ci, "a copy and its original differ after the same calls")
 	for _, hd := range []uint64{0, c} {
@@ -1424,7 +1469,7 @@ func (g *genr) tIndep() {
 		}
 	}
 	i1 := g.do(Op{K: "view", H: a})
-	g.expect("eqview", i0, i1, -1, "writes to one side of a copy show on the other side")
+	g.h.Asserts = append(g.h.Asserts, Assert{Kind: "eqview", I: i0, J: i1, Copy: g.origin[a], Why: "writes to one side of a copy show on the other side", Only: "d1"})
 	g.commitReopen(a)
 }
 
